@@ -20,6 +20,7 @@ type PContacts struct {
 	MaxExpires uint32
 	MinExpires uint32
 	LastHVal   PField    // value part of the last contact _header_ parsed
+	lastHNo    int       // header number (HNo) for which LastHVal was started
 	last       PFromBody // used if no space in Vals, for keeping state
 	first      PFromBody // even if Vals is nil, we remember the first val.
 }
@@ -114,8 +115,12 @@ func ParseAllContactValues(buf []byte, offs int, c *PContacts) (int, ErrorHdr) {
 		switch err {
 		case 0, ErrHdrMoreValues:
 			if c.N == 0 {
-				c.LastHVal = pf.V
 				c.MinExpires = ^uint32(0)
+			}
+			if c.N == 0 || c.lastHNo != c.HNo {
+				// first value of a new header
+				c.LastHVal = pf.V
+				c.lastHNo = c.HNo
 			} else {
 				c.LastHVal.Extend(int(pf.V.Offs + pf.V.Len))
 			}
